@@ -13,8 +13,11 @@ THEOREMS = [
     "C28_clean_d_eq_partial", "C28_clean_subdir_refuted",
     "C28_clean_ignored_dir_refuted", "C28_add_below_tracked_file_refuted",
     "C28_add_ignored_refuted", "C28_add_filemode_refuted", "C28_add_replaced_dir_refuted",
+    "C28_add_scope_eq", "C28_add_file_eq", "C28_add_deleted_eq", "C28_add_dir_eq", "C28_add_all_eq",
+    "C28_rm_dir_eq", "C28_clean_nod_eq_partial",
+    "C28_commit_head", "C28_commit_head_update", "C28_commit_merge_head_refuted", "C28_commit_amend_merge_refuted",
 ]
-MODEL_FILES = ["Status.v", "IndexOps.v"]
+MODEL_FILES = ["Status.v", "IndexOps.v", "CommitHead.v"]
 MODELLED = ("worktree_status.go doAdd / doAddDirectory / doAddFile (file, directory, All), doUpdateFileToIndex (mode, size, "
             "mtime from the file), Remove / doRemoveDirectory / doRemoveFile, Move; worktree.go Clean / doClean; "
             "worktree_commit.go buildTreeHelper.BuildTree (commitIndexEntry, doBuildTree with the never-written h.entries, "
@@ -81,6 +84,15 @@ def call(prefix, c):
         return "%smv %s %s %s %s" % (prefix, tbl, state, hx(c["path"]), hx(c["to"]))
     if op == "clean":
         return "%sclean %s %s %s" % (prefix, tbl, state, coq_bool(c["dir"]))
+    if op == "commithead":
+        hk = {"unborn": 0, "branch": 1, "detached": 2}[c["hk"]]
+        same = c["hist"] >= 1 and {q: (m, d) for q, (m, d, _) in st["index"].items()} == st["head"]
+        tree = 1 if same else (0 if not st["index"] else 2)
+        args = "%s %s %s %s %s %s %s" % (coq_N(hk), coq_N(c["hist"]), coq_bool(c["amend"]), coq_bool(c["allow"]),
+                                         coq_bool(c["merge"]), coq_N(1), coq_N(tree))
+        if prefix == "c28_":
+            args += " " + coq_bool(not st["index"])
+        return "%scommithead %s" % (prefix, args)
     return "%scommit %s %s" % (prefix, tbl, state)
 
 
@@ -94,6 +106,13 @@ def deviation(c):
     op, idx, wt = c["op"], st["index"], st["wt"]
     p = c.get("path")
     isdir = lambda q: q not in wt and any(under(q, w) for w in wt)
+    if op == "commithead":
+        same = c["hist"] >= 1 and {q: (m, d) for q, (m, d, _) in idx.items()} == st["head"]
+        if c["merge"]:
+            return "commit-ignores-merge-head"
+        if c["amend"] and c["hist"] == 3 and not c["allow"] and same:
+            return "commit-amend-merge-empty"
+        return None
     if op == "commit":
         if any(m == "l" and q.rsplit("/", 1)[-1] in (".gitignore", ".gitattributes", ".mailmap", ".gitmodules") for q, (m, _, _) in idx.items()):
             return "commit-dotfile-symlink"
@@ -169,16 +188,21 @@ def deviation(c):
 class Main(Suite):
     name = "main"
     go_cmd = "c28"
-    coq_imports = "From GoGit Require Import Model.Status Model.IndexOps Spec.GitIndexOps."
+    coq_imports = "From GoGit Require Import Model.Status Model.IndexOps Spec.GitIndexOps Model.CommitHead Spec.GitCommitHead."
     quick_n = 110
     thorough_n = 400
     coq_chunk = 60
 
     def gen(self, rng, n, tier):
         cases = []
-        ops = ["add", "add", "adddir", "addall", "rm", "rmdir", "mv", "clean", "cleand", "commit", "commit"]
+        ops = ["add", "add", "adddir", "addall", "rm", "rmdir", "mv", "clean", "cleand", "commit", "commit", "commithead", "commithead"]
+        nhead = 0
         for k in range(n):
             kind = ops[k % len(ops)]
+            if kind == "commithead":
+                cases.append(self.gen_commithead(rng, nhead))
+                nhead += 1
+                continue
             feats = ["ignore", "racy", "typechange", "stagedel"]
             if kind == "commit" and rng.random() < 0.3:
                 feats.append("ita")
@@ -219,6 +243,33 @@ class Main(Suite):
             cases.append(c)
         return cases
 
+    # HEAD shapes x options of the commithead bucket, enumerated in turn
+    HEADS = [("branch", 1), ("branch", 2), ("unborn", 0), ("detached", 1), ("detached", 2), ("branch", 3), ("detached", 3)]
+
+    def gen_commithead(self, rng, j):
+        """Commit's parents / HEAD update: unborn branch, branch, detached HEAD, amend (of a root, of a commit with a
+        parent, of a merge), empty and non-empty commits, AllowEmptyCommits, a merge in progress (.git/MERGE_HEAD)"""
+        hk, hist = self.HEADS[j % len(self.HEADS)]
+        st = pg.gen_state(rng, features=("racy",))
+        st["exclude"], st["fmt"], st["filemode"] = b"", "sha1", True
+        if hist == 0:
+            st["head"] = {}
+        elif not st["head"]:
+            st["head"] = {"a": ("f", b"1\n")}
+        r = rng.random()
+        if hist >= 1 and r < 0.35:
+            st["index"] = {q: (m, d, "") for q, (m, d) in st["head"].items()}      # nothing staged
+        elif r < 0.45:
+            st["index"] = {}                                                        # empty index
+        elif hist >= 1 and {q: (m, d) for q, (m, d, _) in st["index"].items()} == st["head"]:
+            st["index"]["zz"] = ("f", b"new\n", "")
+        st["wt"] = {q: (m, d, "") for q, (m, d, _) in st["index"].items()}
+        st["dirs"] = []
+        c = pg.recipe(st)
+        c.update({"op": "commithead", "hk": hk, "hist": hist, "amend": rng.random() < 0.4, "allow": rng.random() < 0.25,
+                  "merge": hist >= 1 and rng.random() < 0.12, "bucket": "commithead"})
+        return c
+
     def model_expr(self, c):
         if c["op"] == "mv":
             st = pg.state_of(c)
@@ -245,9 +296,14 @@ class Main(Suite):
             # The exit status alone is not part of the property (same index entries and remaining files): git also
             # exits 1 after doing the work (e.g. `git add <tracked file below an ignored directory>` updates the
             # index and then complains about the directory), and a refusal on one side shows up as a state difference.
-            if bool(ex.get("err")) != bool(ex.get("giterr")):
+            if c["op"] != "commithead" and bool(ex.get("err")) != bool(ex.get("giterr")):
                 self.status_only = getattr(self, "status_only", 0) + 1
-            if c["op"] == "commit":
+            if c["op"] == "commithead":
+                if ex.get("obs") != ex.get("git_obs"):
+                    why.append("commit result / parents / HEAD update %s differ from git commit %s" % (ex.get("obs"), ex.get("git_obs")))
+                elif ex.get("tree_id") != ex.get("git_tree_id"):
+                    why.append("commit tree %s differs from git's %s" % (ex.get("tree_id"), ex.get("git_tree_id")))
+            elif c["op"] == "commit":
                 if ex.get("err") and not ex.get("giterr"):
                     why.append("Commit fails (%s) where git write-tree succeeds" % ex["err"][:120])
                 if not ex.get("err") and ex.get("tree_id") != ex.get("git_tree_id"):
@@ -296,6 +352,12 @@ class Main(Suite):
             if c["op"] == "add" and c["path"] not in pg.state_of(c)["wt"] and pg.ignored(pg.state_of(c), c["path"] + "/\x01"):
                 continue   # an ignored directory named explicitly: the verdict for directories is not part of the state
             if c["op"] == "mv" and self.model_expr(c) is None:
+                continue
+            if c["op"] == "commithead":
+                if o != ex.get("git_obs"):
+                    bad += 1
+                    ctx.notes.append("spec_mismatch GitCommitHead vs git on %s: S %s / git %s" % (
+                        {k: v for k, v in c.items() if k != "id"}, o, ex.get("git_obs")))
                 continue
             if c["op"] == "commit":
                 continue   # S's tree listing is checked through the tree id by the oracle; here only index ops
